@@ -1062,6 +1062,239 @@ theorem C13_rejected_or_confined (rc : List Bytes) (hrc : rc ≠ []) (hs : ∀ c
     · exact Or.inl h
     · exact Or.inr ⟨p, hp, hc⟩
 
+/-! ## 9g. the model's formulations are the literal Go text -/
+
+/-- `strings.LastIndex(s, string(c))` (`none` = -1) -/
+def lastIndex (c : UInt8) : Bytes → Option Nat
+  | [] => none
+  | x :: xs =>
+    match lastIndex c xs with
+    | some i => some (i + 1)
+    | none => if x == c then some 0 else none
+
+/-- `i > j` on Go's index results, `none` standing for -1 -/
+def gtIdx : Option Nat → Option Nat → Bool
+  | some i, some j => decide (i > j)
+  | some _, none => true
+  | none, _ => false
+
+/-- the literal text of ParseNameBare's first statement:
+    `if strings.LastIndex(s, ":") > strings.LastIndex(s, "/") { s, n.Tag, _ = cutPromised(s, ":") }` -/
+def cutTagLit (s : Bytes) : Bytes × Bytes :=
+  if gtIdx (lastIndex cColon s) (lastIndex cSlash s) then
+    match cutPromised cColon s with
+    | some (b, a) => (b, a)
+    | none => (s, [])
+  else (s, [])
+
+theorem splitLast_none_all (p : UInt8 → Bool) (s : Bytes) (h : splitLast p s = none) : ∀ c ∈ s, p c = false := by
+  induction s with
+  | nil => intro c hc; cases hc
+  | cons x xs ih =>
+    simp only [splitLast] at h
+    cases hq : splitLast p xs with
+    | some t => rw [hq] at h; cases h
+    | none =>
+      rw [hq] at h
+      simp only at h
+      have hx : p x = false := by
+        cases hp : p x with
+        | false => rfl
+        | true => rw [hp] at h; simp at h
+      intro c hc
+      rcases List.mem_cons.mp hc with rfl | hc
+      · exact hx
+      · exact ih hq c hc
+
+/-- invariant relating the one-pass `splitLast` on `:`/`/` to the two `LastIndex` calls -/
+theorem splitLast_lastIndex (s : Bytes) :
+    match splitLast (fun c => c == cColon || c == cSlash) s with
+    | none => lastIndex cColon s = none ∧ lastIndex cSlash s = none
+    | some (b, a, sep) =>
+      (sep = cColon ∧ lastIndex cColon s = some b.length ∧
+        (∀ j, lastIndex cSlash s = some j → j < b.length) ∧
+        splitLast (· == cColon) s = some (b, a, cColon)) ∨
+      (sep = cSlash ∧ lastIndex cSlash s = some b.length ∧
+        (∀ j, lastIndex cColon s = some j → j < b.length)) := by
+  induction s with
+  | nil => simp [splitLast, lastIndex]
+  | cons x xs ih =>
+    simp only [splitLast]
+    cases h : splitLast (fun c => c == cColon || c == cSlash) xs with
+    | some t =>
+      obtain ⟨b, a, sep⟩ := t
+      rw [h] at ih
+      simp only at ih ⊢
+      rcases ih with ⟨rfl, hc, hs, hsp⟩ | ⟨rfl, hs, hc⟩
+      · left
+        refine ⟨rfl, by simp [lastIndex, hc], ?_, by simp [splitLast, hsp]⟩
+        intro j hj
+        simp only [lastIndex] at hj
+        cases hl : lastIndex cSlash xs with
+        | some j' => rw [hl] at hj; simp at hj; have := hs j' hl; simp; omega
+        | none => rw [hl] at hj; simp only at hj; split at hj <;> simp at hj; simp [← hj]
+      · right
+        refine ⟨rfl, by simp [lastIndex, hs], ?_⟩
+        intro j hj
+        simp only [lastIndex] at hj
+        cases hl : lastIndex cColon xs with
+        | some j' => rw [hl] at hj; simp at hj; have := hc j' hl; simp; omega
+        | none => rw [hl] at hj; simp only at hj; split at hj <;> simp at hj; simp [← hj]
+    | none =>
+      rw [h] at ih
+      simp only at ih ⊢
+      obtain ⟨hc, hs⟩ := ih
+      have hall := splitLast_none_all _ _ h
+      by_cases hx : x = cColon
+      · subst hx
+        have hp : (cColon == cColon || cColon == cSlash) = true := by decide
+        rw [if_pos hp]
+        have hn : splitLast (· == cColon) xs = none := by
+          apply splitLast_none
+          intro c hcm
+          have := hall c hcm
+          simp only [Bool.or_eq_false_iff] at this
+          exact this.1
+        refine Or.inl ⟨rfl, by simp [lastIndex, hc], ?_, by simp [splitLast, hn]⟩
+        intro j hj
+        simp [lastIndex, hs] at hj
+        exact absurd hj.1 (by decide)
+      · by_cases hx' : x = cSlash
+        · subst hx'
+          have hp : (cSlash == cColon || cSlash == cSlash) = true := by decide
+          rw [if_pos hp]
+          refine Or.inr ⟨rfl, by simp [lastIndex, hs], ?_⟩
+          intro j hj
+          simp [lastIndex, hc] at hj
+          exact absurd hj.1 (by decide)
+        · have hp : (x == cColon || x == cSlash) = false := by simp [hx, hx']
+          rw [if_neg (by simp [hp])]
+          simp [lastIndex, hc, hs, hx, hx']
+
+/-- **The model's `cutTag` is the literal Go statement**: comparing the two `strings.LastIndex` results (with -1
+    for "absent") and then cutting at the last `:` is the same, for every byte string, as the one-pass
+    formulation used in `parseNameBare`. -/
+theorem cutTag_literal (s : Bytes) : cutTagLit s = cutTag s := by
+  have inv := splitLast_lastIndex s
+  unfold cutTagLit cutTag cutPromised
+  cases h : splitLast (fun c => c == cColon || c == cSlash) s with
+  | none =>
+    rw [h] at inv
+    simp [inv.1, inv.2, gtIdx]
+  | some t =>
+    obtain ⟨b, a, sep⟩ := t
+    rw [h] at inv
+    simp only at inv
+    rcases inv with ⟨rfl, hc, hs, hsp⟩ | ⟨rfl, hs, hc⟩
+    · have hgt : gtIdx (lastIndex cColon s) (lastIndex cSlash s) = true := by
+        rw [hc]
+        cases hl : lastIndex cSlash s with
+        | none => rfl
+        | some j => simp [gtIdx, hs j hl]
+      simp [hgt, hsp]
+    · have hgt : gtIdx (lastIndex cColon s) (lastIndex cSlash s) = false := by
+        rw [hs]
+        cases hl : lastIndex cColon s with
+        | none => rfl
+        | some j => have := hc j hl; simp [gtIdx]; omega
+      have hsc : (cSlash == cColon) = false := by decide
+      simp [hgt, hsc]
+
+
+theorem splitLast_length (p : UInt8 → Bool) (s b a : Bytes) (c : UInt8)
+    (h : splitLast p s = some (b, a, c)) : b.length + a.length + 1 = s.length := by
+  induction s generalizing b with
+  | nil => simp [splitLast] at h
+  | cons x xs ih =>
+    simp only [splitLast] at h
+    cases hq : splitLast p xs with
+    | some t =>
+      obtain ⟨b', a', c'⟩ := t
+      rw [hq] at h
+      simp only [Option.some.injEq, Prod.mk.injEq] at h
+      obtain ⟨rfl, rfl, rfl⟩ := h
+      have := ih b' hq
+      simp only [List.length_cons]; omega
+    | none =>
+      rw [hq] at h
+      simp only at h
+      split at h
+      · simp only [Option.some.injEq, Prod.mk.injEq] at h
+        obtain ⟨rfl, rfl, rfl⟩ := h
+        simp
+      · cases h
+
+/-- **The fuel of `parseNLoop` is an artefact**: any two fuels larger than `len(s)` give the same result, so
+    the `fuel = 0` branch is never reached from `parseN` and the Lean function is the Go `for` loop. -/
+theorem parseNLoop_fuel (fuel : Nat) : ∀ (s t : Bytes) (fuel' : Nat), s.length < fuel → s.length < fuel' →
+    parseNLoop fuel s t = parseNLoop fuel' s t := by
+  induction fuel with
+  | zero => intro s t fuel' h; omega
+  | succ k ih =>
+    intro s t fuel' h h'
+    cases fuel' with
+    | zero => omega
+    | succ k' =>
+      simp only [parseNLoop]
+      cases hq : splitLast (fun c => c == cSlash || c == cColon) s with
+      | none => rfl
+      | some tr =>
+        obtain ⟨b, a, sep⟩ := tr
+        simp only
+        split
+        · have := splitLast_length _ _ _ _ _ hq
+          exact ih b a k' (by omega) (by omega)
+        · rfl
+
+/-! ## 9h. the left operand of EqualFold is ASCII -/
+
+theorem restOk_ascii_fin : ∀ k : Fin 5, ∀ n : Fin 256,
+    restOk (Kind.ofIdx k.val) (UInt8.ofNat n.val) = true → n.val < 128 := by decide +kernel
+
+theorem restOk_ascii (k : Kind) (c : UInt8) (h : restOk k c = true) : c.toNat < 128 := by
+  have key : ∀ i : Fin 5, Kind.ofIdx i.val = k → c.toNat < 128 := by
+    intro i hi
+    have := restOk_ascii_fin i ⟨c.toNat, c.toNat_lt⟩
+    simp only [hi, UInt8.ofNat_toNat] at this
+    exact this h
+  cases k
+  · exact key ⟨0, by omega⟩ rfl
+  · exact key ⟨1, by omega⟩ rfl
+  · exact key ⟨2, by omega⟩ rfl
+  · exact key ⟨3, by omega⟩ rfl
+  · exact key ⟨4, by omega⟩ rfl
+
+/-- every byte of an accepted part is ASCII -/
+theorem charsOk_ascii (k : Kind) (s : Bytes) (h : charsOk k s = true) : ∀ c ∈ s, c.toNat < 128 :=
+  fun c hc => restOk_ascii k c (charsOk_all k s h c hc)
+
+/-- **The wanted manifest path is pure ASCII** for every accepted name — the precondition under which the
+    model's `equalFold` is exactly `strings.EqualFold` (any bytes on the link side). -/
+theorem manifest_want_ascii (s : Bytes) (h : isFQN (parseN s) = true) :
+    ∀ c ∈ joinWith cSlash [sManifests, (parseN s).host, (parseN s).ns, (parseN s).model, (parseN s).tag],
+      c.toNat < 128 := by
+  have hm : isFQM (parseN s) = true := by rw [isFQM_eq_isFQN]; exact h
+  simp only [isFQM, Bool.and_eq_true] at hm
+  obtain ⟨⟨⟨hh, hn⟩, hmo⟩, ht⟩ := hm
+  have a := charsOk_ascii _ _ (validPartM_charsOk hh)
+  have b := charsOk_ascii _ _ (validPartM_charsOk hn)
+  have c' := charsOk_ascii _ _ (validPartM_charsOk hmo)
+  have d := charsOk_ascii _ _ (validPartM_charsOk ht)
+  have e : ∀ c ∈ sManifests, c.toNat < 128 := by decide
+  intro c hc
+  simp only [joinWith, List.mem_append, List.mem_cons] at hc
+  have hs : cSlash.toNat < 128 := by decide
+  rcases hc with hc | rfl | hc | rfl | hc | rfl | hc | rfl | hc
+  · exact e c hc
+  · exact hs
+  · exact a c hc
+  · exact hs
+  · exact b c hc
+  · exact hs
+  · exact c' c hc
+  · exact hs
+  · exact d c hc
+
 /-! ## 10. non-vacuity -/
 
 /-- the hypotheses of the theorems above are met by non-trivial concrete values: a fully qualified name with a
